@@ -116,6 +116,11 @@ impl Future for StatusFuture {
       #[cfg(feature = "verif_hooks")]
       crate::verif::yield_point("status_check");
       self.0.waker.register(cx.waker());
+      // the status may have been set (and the wake-up spent) between the
+      // check above and the registration: look again before going to sleep
+      if self.0.is_closed() {
+        return Poll::Ready(NormalReturn::new(()));
+      }
       Poll::Pending
     }
   }
